@@ -243,3 +243,23 @@ def append_statement_at_end__twin(k: int) -> bool:
     post: _ == True
     """
     return not append_statement_at_end(k)
+
+
+def abbrev_regen(k: int) -> bool:
+    """
+    Regenerating the code of an unmodified model that contains an `$ABBREVIATED REPLACE` record changes nothing
+    (k = 0: `$ABBREV REPLACE ...` followed by a blank line, k = 1: `$ABBR REPLACE ...`).
+    pre: 0 <= k <= 1
+    post: _ == True
+    """
+    k = _pick(k, 0, 2)
+    with _NoTracing():
+        base = [s_[0] for s_ in SLOTS]
+        rec = ['$ABBREV REPLACE ETA_CL=ETA(1)\n\n', '$ABBR REPLACE ETA_CL=ETA(1)\n'][k]
+        pk = base[4].replace('EXP(ETA(1))', 'EXP(ETA_CL)')
+        text = ''.join(base[:4]) + rec + pk + ''.join(base[5:])
+        m = Model.parse_model_from_string(text)
+        out = m.update_source().code
+        if out != text:
+            raise AssertionError(f'regenerating the unmodified model changed the code: {out!r} != {text!r}')
+        return True
